@@ -5,7 +5,7 @@
 (* machine's exact outcome (tree or error variant) for every sequence as a *)
 (* diagnostic conformance case against the real tree builder.              *)
 (***************************************************************************)
-EXTENDS TreeBuilder, Json
+EXTENDS TreeBuilder
 CONSTANTS MaxLen, AlphaName
 VARIABLE toks
 
@@ -24,5 +24,6 @@ SpecTheorems == Refines(toks)
 
 Blt == ImplBuild(toks)
 Emit == PrintT(ToJson([kind |-> "impl", check |-> "impl_model", toks |-> TokTexts(toks), ok |-> Blt.ok,
-                       tree |-> IF Blt.ok THEN JTree(NormRoot(Blt.tree)) ELSE JTree(NEmpty), err |-> Blt.err]))
+                       tree |-> IF Blt.ok THEN JTree(NormRoot(Blt.tree)) ELSE JTree(NEmpty), err |-> Blt.err,
+                       disp |-> IF Blt.ok THEN DisplayTree(Blt.tree) ELSE <<>>]))
 =============================================================================
